@@ -53,7 +53,8 @@ def s_run(rng, budget_words=2600):
     if rng.random() < 0.25:
         j["extra_flags"] = [rng.choice(["-Zmiri-compare-exchange-weak-failure-rate=0.2",
                                         "-Zmiri-address-reuse-cross-thread-rate=0.5",
-                                        "-Zmiri-address-reuse-rate=0.9"])]
+                                        "-Zmiri-address-reuse-rate=0.9",
+                                        "-Zmiri-num-cpus=2", "-Zmiri-num-cpus=4", "-Zmiri-num-cpus=16"])]
     return j
 
 
